@@ -19,42 +19,44 @@ import common
 TEXTBOOK_NEG = {'Eq': 'Ne', 'Ne': 'Eq', 'Eeq': 'Ene', 'Ene': 'Eeq', 'Gt': 'Lte', 'Lte': 'Gt', 'Lt': 'Gte', 'Gte': 'Lt',
                 'Rx': 'NotRx', 'NotRx': 'Rx', 'Like': 'NotLike', 'NotLike': 'Like', 'Between': 'NotBetween',
                 'NotBetween': 'Between'}
+LEAF_FIELDS = [('Size', 'Uid'), ('Gid', 'Inode'), ('Blocks', 'Hardlinks'), ('Device', 'Accessed')]
 TYPE_OPS = {'Int': E.CMP_OPS, 'Float': E.CMP_OPS, 'Bool': E.CMP_OPS, 'DateTime': E.CMP_OPS,
             'String': ['Eq', 'Ne', 'Eeq', 'Ene', 'Rx', 'NotRx', 'Like', 'NotLike']}
 
 
 def operands(ctx, prog, ty, tag):
     """symbolic operand pair of the given VariantType, registered under leaf tags L<tag>/R<tag>"""
-    g = ctx.ghost.setdefault('operands', {})
+    g = ctx.ghost.setdefault('fields', {})
     sym = {}
+    lf, rf = LEAF_FIELDS[tag]
     if ty == 'Int':
         L = ctx.fresh_bv('L', 64); R = ctx.fresh_bv('R', 64)
-        g['L%d' % tag] = E.mk_variant(prog, 'Int', int_value=some(L))
-        g['R%d' % tag] = E.mk_variant(prog, 'Int', int_value=some(R))
+        g[lf] = E.mk_variant(prog, 'Int', int_value=some(L))
+        g[rf] = E.mk_variant(prog, 'Int', int_value=some(R))
         sym = {'L': L, 'R': R}
     elif ty == 'Float':
         L = ctx.fresh('L', z3.Float64()); R = ctx.fresh('R', z3.Float64())
         ctx.assume(Not(z3.fpIsNaN(L))); ctx.assume(Not(z3.fpIsNaN(R)))
-        g['L%d' % tag] = E.mk_variant(prog, 'Float', float_value=some(L))
-        g['R%d' % tag] = E.mk_variant(prog, 'Float', float_value=some(R))
+        g[lf] = E.mk_variant(prog, 'Float', float_value=some(L))
+        g[rf] = E.mk_variant(prog, 'Float', float_value=some(R))
         sym = {'L': L, 'R': R}
     elif ty == 'Bool':
         L = ctx.fresh_bool('L'); R = ctx.fresh_bool('R')
-        g['L%d' % tag] = E.mk_variant(prog, 'Bool', bool_value=some(L))
-        g['R%d' % tag] = E.mk_variant(prog, 'Bool', bool_value=some(R))
+        g[lf] = E.mk_variant(prog, 'Bool', bool_value=some(L))
+        g[rf] = E.mk_variant(prog, 'Bool', bool_value=some(R))
         sym = {'L': L, 'R': R}
     elif ty == 'DateTime':
         t = ctx.fresh_bv('t', 64); a = ctx.fresh_bv('a', 64); b = ctx.fresh_bv('b', 64)
         ctx.assume(a <= b)
-        g['L%d' % tag] = E.mk_variant(prog, 'DateTime', dt_from=some(DateTimeV(t)), dt_to=some(DateTimeV(t)))
-        g['R%d' % tag] = E.mk_variant(prog, 'DateTime', dt_from=some(DateTimeV(a)), dt_to=some(DateTimeV(b)))
+        g[lf] = E.mk_variant(prog, 'DateTime', dt_from=some(DateTimeV(t)), dt_to=some(DateTimeV(t)))
+        g[rf] = E.mk_variant(prog, 'DateTime', dt_from=some(DateTimeV(a)), dt_to=some(DateTimeV(b)))
         sym = {'t': t, 'a': a, 'b': b}
     elif ty == 'String':
         # subject: symbolic text; pattern: a concrete representative per is_glob class
         subj = Str(term=ctx.fresh('subj', z3.StringSort()))
         pat = ctx.ghost['pattern']
-        g['L%d' % tag] = E.mk_variant(prog, 'String', string_value=subj)
-        g['R%d' % tag] = E.mk_variant(prog, 'String', string_value=Str(pat))
+        g[lf] = E.mk_variant(prog, 'String', string_value=subj)
+        g[rf] = E.mk_variant(prog, 'String', string_value=Str(pat))
         sym = {'subj': subj.term}
     return sym
 
@@ -108,6 +110,11 @@ def witness_to_cli(ty, op, vals):
             return 'size*1 %s %d' % (optxt, int(R)), {'f': {'size': int(L)}}
     if ty == 'Bool':
         return 'is_dir %s %s' % (optxt, 'true' if vals['R'] else 'false'), {'f': ({'kind': 'dir'} if vals['L'] else {'size': 1})}
+    if ty == 'String':
+        pat = vals.get('pattern')
+        if pat is not None and "'" not in pat:
+            names = {n: {'size': 1} for n in set(['f1', 'abc', 'x', 'F1', 'fa*'] + ([pat] if pat and '/' not in pat else []))}
+            return "name %s '%s'" % (optxt, pat), names
     if ty == 'DateTime':
         t, a, b = vals['t'], vals['a'], vals['b']
         if a % 86400 == 0 and b == a + 86399 and 946684800 <= a <= 1893456000 and 946684800 <= t <= 1893456000:
@@ -175,7 +182,7 @@ def fam_complement(sess, ty, real_negate_ops=()):
     (table closure) — and, for the operators whose negate() entry deviates, with the real negate(op): that one yields
     the replayable witness of the negate defect"""
     prog = sess.prog
-    ex = sess.executor([E.GCEV_OVERRIDE, E.CONVERT_OVERRIDE])
+    ex = sess.executor(E.EVAL_OVERRIDES)
     fam = 'complement/' + ty
     patterns = ['f*'] if ty == 'String' else [None]
     if ty == 'String' and sess.tier == 'thorough':
@@ -194,8 +201,8 @@ def fam_complement(sess, ty, real_negate_ops=()):
         def run(ctx, op=op, nop=nop, pat=pat):
             ctx.ghost['pattern'] = pat
             sym = operands(ctx, prog, ty, 0)
-            r1 = E.run_conforms(ctx, prog, E.leaf_cmp(prog, E.op_enum(prog, op), 0))
-            r2 = E.run_conforms(ctx, prog, E.leaf_cmp(prog, E.op_enum(prog, nop), 0))
+            r1 = E.run_conforms(ctx, prog, E.leaf_cmp(prog, E.op_enum(prog, op), *LEAF_FIELDS[0]))
+            r2 = E.run_conforms(ctx, prog, E.leaf_cmp(prog, E.op_enum(prog, nop), *LEAF_FIELDS[0]))
             return sym, r1, r2
 
         def on_path(ctx, out, op=op, nop=nop, pat=pat, kind=kind):
@@ -215,6 +222,8 @@ def fam_complement(sess, ty, real_negate_ops=()):
                 sess.inconclusive(name, 'solver: unknown', fam); box['bad'] = True; return
             m = small_witness(ctx, ty, sym, [r1 == r2])
             vals = model_vals(m, sym)
+            if pat is not None:
+                vals['pattern'] = pat
             role = ('negate/%s' % op) if kind == 'real-negate' else ('table/%s/%s' % (ty, op))
             cli = witness_to_cli(ty, op, vals) if kind == 'real-negate' else None
             rep = cli_partition_replay(*cli) if cli else None
@@ -250,7 +259,7 @@ def fam_negate_expr_tree(sess):
     """real Parser::negate_expr_op on trees whose leaves carry Eq/Ne/Eeq/Ene (operators whose negate() entry is
     checked by negate_table) over symbolic Int operands: eval(negate_expr_op(e)) must equal not eval(e)"""
     prog = sess.prog
-    ex = sess.executor([E.GCEV_OVERRIDE])
+    ex = sess.executor(E.EVAL_OVERRIDES)
     fam = 'negate_expr_tree'
     nexpr = prog.find('Parser', 'negate_expr_op')
     depth = 1 if sess.tier == 'quick' else 2
@@ -271,7 +280,7 @@ def fam_negate_expr_tree(sess):
                 d = ctx.fresh_bv('op', 64)
                 ctx.assume(Or([d == k for k in eqops]))
                 syms.append((tag, d, sym))
-                return E.leaf_cmp(prog, E.op_enum(prog, d), tag)
+                return E.leaf_cmp(prog, E.op_enum(prog, d), *LEAF_FIELDS[tag])
             lop, a, b = s
             return E.node_logical(prog, E.lop_enum(prog, lop), build(ctx, a, counter, syms), build(ctx, b, counter, syms))
 
@@ -333,7 +342,7 @@ def fam_negate_expr_tree(sess):
 def main(sess):
     sess.engines = ['mirsym (MIR symbolic execution) + z3 %s' % z3.get_version_string()]
     sess.assumptions += [
-        'summary: Searcher::get_column_expr_value returns an arbitrary Variant of the column type (its body is C04/C15/C16)',
+        'summary: Searcher::get_field_value returns an arbitrary Variant of the column type (its arms are C04); get_column_expr_value, Expr::fmt, Variant::* run from their real MIR',
         'Float operands are not NaN; DateTime literal interval a <= b',
         'regex::Regex::{new,is_match} are uninterpreted (same pattern, same subject => same verdict)',
         'operators are restricted to the well-typed ones per operand type (comparison ops for Int/Float/Bool/DateTime, '
@@ -348,7 +357,7 @@ def main(sess):
         fam_negate_table(sess)
     for ty in ('Int', 'Float', 'Bool', 'DateTime', 'String'):
         if want('complement'):
-            fam_complement(sess, ty, sess.pending_negate if ty == 'Int' else ())
+            fam_complement(sess, ty, sess.pending_negate)
     # a negate() entry that deviates from the textbook table but produced no observable disagreement is still wrong
     seen = {o.role for o in sess.obs if o.status == 'violated'}
     for (op, got, want_) in sess.pending_negate:
@@ -356,6 +365,9 @@ def main(sess):
             sess.inconclusive('negate(%s) = %s, expected %s' % (op, got, want_), 'no replayable witness found', 'negate_table')
     if want('negate_expr_tree'):
         fam_negate_expr_tree(sess)
+    if want('not_between'):
+        from drivers import c02
+        c02.fam_between(sess, negs=(True,))
     try:
         from drivers import c03_formula
         if want('formula'):
